@@ -4,8 +4,8 @@
     {"op":"diff","r1":R,"r2":R} → {"added":[…],"removed":[…],"changed":[…],"unchanged":n,"empty":bool}
     {"op":"short","report":R,"filter":null|{"tests":[path…],"setups":[suite path…],"teardowns":[suite path…]}}
         (the filter is given by its DECISIONS: the test paths / suite setups / suite teardowns it accepts)
-      → {"short": {"lines":[[name,status]…],"summary":null|{…}} | {"err":"TypeError"|"IndexError"},
-         "from_suites": {"total":…,…} | {"err":…}}          -- ReportStats.from_suites(report.get_suites(), report.parallelized)
+      → {"short": {"lines":[[name,status]…],"summary":null|{…},"duration_known":bool},
+         "from_suites": {"stats":{"total":…,…},"duration_known":bool}}   -- ReportStats.from_suites(report.get_suites(), report.parallelized)
   Run: `lake env lean --run drivers/C20.lean`
 -/
 import LccModel.Proto
@@ -35,10 +35,6 @@ def encStats (s : Stats) : Json :=
 def encSummary (sm : Summary) : Json :=
   Json.mkObj [("tests", Json.num sm.tests), ("successes", Json.num sm.successes), ("failures", Json.num sm.failures),
               ("skipped", encOptNat sm.skipped), ("disabled", encOptNat sm.disabled)]
-
-def encViewErr : ViewErr → Json
-  | .noResults => Json.mkObj [("err", "IndexError")]
-  | _ => Json.mkObj [("err", "TypeError")]
 
 def decFilter (j : Json) : Except String (Option RFilter) := do
   if j.isNull then return none
@@ -71,15 +67,14 @@ def handle (j : Json) : Except String Json := do
   | "short" =>
     let r ← decReport (← field j "report")
     let filt ← decFilter (fieldOpt j "filter")
-    let sh := match shortReport r filt with
-      | .ok v => Json.mkObj [("lines", encList (fun (pt : Path × TestResult) => Json.arr #[encStr pt.2.md.name, encStatus pt.2.result.status]) v.lines),
-                             ("summary", match v.summary with
-                                | some sm => encSummary sm
-                                | none => Json.null)]
-      | .error e => encViewErr e
-    let fs := match statsFromSuites (parallelized r) (view r) with
-      | .ok s => encStats s
-      | .error e => encViewErr e
+    let v := shortReport r filt
+    let sh := Json.mkObj [("lines", encList (fun (pt : Path × TestResult) => Json.arr #[encStr pt.2.md.name, encStatus pt.2.result.status]) v.lines),
+                          ("summary", match v.summary with
+                             | some sm => encSummary sm
+                             | none => Json.null),
+                          ("duration_known", Json.bool v.durationKnown)]
+    let fs := Json.mkObj [("stats", encStats (statsFromSuites (view r))),
+                          ("duration_known", Json.bool (fromSuitesDurationKnown (parallelized r) (view r)))]
     pure (Json.mkObj [("short", sh), ("from_suites", fs)])
   | "diff" =>
     let r1 ← decReport (← field j "r1")
